@@ -94,6 +94,24 @@ class State:
             self.pc.append(c)
 
 
+_HASQ = {}
+
+
+def has_quantifier(e):
+    k = e.get_id()
+    r = _HASQ.get(k)
+    if r is None:
+        if z3.is_quantifier(e):
+            r = True
+        elif z3.is_app(e):
+            r = any(has_quantifier(c) for c in e.children())
+        else:
+            r = False
+        _HASQ[k] = (r, e)     # keep e alive: ast ids are reused
+        return r
+    return r[0]
+
+
 class Flow:
     NEXT, RETURN, BREAK, CONTINUE, RAISE = "next", "return", "break", "continue", "raise"
 
@@ -185,13 +203,23 @@ class Engine:
             self.oblige(st, kind, g, tag)
 
     def feasible(self, st, extra=None):
+        """Path pruning (an optimisation, and the vacuity guard on requires): `False` only if the path condition is unsatisfiable.  Quantified
+        conjuncts are tried last and briefly: dropping them weakens the condition, so a path is never pruned wrongly."""
+        qf = [c for c in st.pc if not has_quantifier(c)]
         self.feas.push()
         try:
-            for c in st.pc:
+            for c in qf:
                 self.feas.add(c)
             if extra is not None:
                 self.feas.add(extra)
             r = self.feas.check()
+            if r == z3.sat and len(qf) != len(st.pc) and len(st.pc) < 60:
+                for c in st.pc:
+                    if has_quantifier(c):
+                        self.feas.add(c)
+                self.feas.set("timeout", 100)
+                r = self.feas.check()
+                self.feas.set("timeout", 300)
         finally:
             self.feas.pop()
         return r != z3.unsat
@@ -577,6 +605,8 @@ class Engine:
             obj = self.eval(target.value, st)
             if isinstance(obj, VModel):
                 obj.sym_setattr(self, st, target.attr, v)
+            elif self.model_hook(obj, "setattr", st, target.attr, v) is not NotImplemented:
+                pass
             elif isinstance(obj, VTuple) and target.attr in self.PAIR_FIELDS and len(obj.items) == 2:
                 items = list(obj.items)
                 items[self.PAIR_FIELDS[target.attr]] = v
@@ -591,6 +621,8 @@ class Engine:
             key = self.eval(target.slice, st)
             if isinstance(base, VModel):
                 base.sym_setitem(self, st, key, v)
+                return
+            if self.model_hook(base, "setitem", st, key, v) is not NotImplemented:
                 return
             new = self.store_item(base, key, v, st)
             self.assign(target.value, new, st, True)
@@ -1056,7 +1088,54 @@ class Engine:
         arr = z3.K(z3.IntSort(), z3.IntVal(0))
         for i, ch in enumerate(s):
             arr = z3.Store(arr, i, ord(ch))
-        return VList(INT, arr, z3.IntVal(len(s)), is_str=True)
+        r = VList(INT, arr, z3.IntVal(len(s)), is_str=True)
+        r.pystr = s
+        return r
+
+    def key_of(self, v):
+        """integer key standing for a value used as a dictionary/set key in an object model: constant strings are interned"""
+        if isinstance(v, VList) and getattr(v, "pystr", None) is not None:
+            import hashlib
+            return z3.IntVal(int.from_bytes(hashlib.sha1(v.pystr.encode()).digest()[:5], "big"))
+        if isinstance(v, VList):
+            raise Unsupported("non-constant string used as a key of an object model")
+        return to_z3(v)
+
+    def module_constant(self, name):
+        """value of a module-level constant of the file under verification (read from the real source): literals, tuples and
+        frozenset/set/tuple(...) of literals; sets become tuples in sorted order (only iteration and membership are supported on them)"""
+        tree = getattr(self.src, "tree", None)
+        if tree is None:
+            return None
+        for n in tree.body:
+            if isinstance(n, ast.Assign) and len(n.targets) == 1 and isinstance(n.targets[0], ast.Name) and n.targets[0].id == name:
+                v = n.value
+                if isinstance(v, ast.Call) and isinstance(v.func, ast.Name) and v.func.id in ("frozenset", "set", "tuple", "list") and len(v.args) == 1:
+                    try:
+                        items = ast.literal_eval(v.args[0])
+                    except Exception:
+                        return None
+                    if v.func.id in ("frozenset", "set"):
+                        items = sorted(set(items))
+                    return self.py_const(tuple(items))
+                try:
+                    return self.py_const(ast.literal_eval(v))
+                except Exception:
+                    return None
+        return None
+
+    def py_const(self, v):
+        if isinstance(v, bool):
+            return z3.BoolVal(v)
+        if isinstance(v, int):
+            return z3.IntVal(v)
+        if isinstance(v, str):
+            return self.str_const(v)
+        if isinstance(v, (tuple, list)):
+            return VTuple([self.py_const(x) for x in v])
+        if isinstance(v, (set, frozenset)):
+            return VTuple([self.py_const(x) for x in sorted(v)])
+        raise Unsupported("module constant %r" % (v,))
 
     def expr_Name(self, node, st):
         if node.id in st.env:
@@ -1067,6 +1146,9 @@ class Engine:
             return self.reg.constants[node.id]
         if self.spec_mode and node.id in self.reg.spec_functions:
             return ("specfn", node.id)
+        mc = self.module_constant(node.id)
+        if mc is not None:
+            return mc
         raise Unsupported("unbound name %s (line %s)" % (node.id, getattr(node, "lineno", "?")))
 
     PAIR_FIELDS = {"first": 0, "second": 1}
@@ -1077,7 +1159,21 @@ class Engine:
             return obj.sym_getattr(self, st, node.attr)
         if isinstance(obj, VTuple) and node.attr in self.PAIR_FIELDS and len(obj.items) == 2:
             return obj.items[self.PAIR_FIELDS[node.attr]]      # std::pair
+        r = self.model_hook(obj, "getattr", st, node.attr)
+        if r is not NotImplemented:
+            return r
         return self.load_field(st, obj, node.attr)
+
+    def model_hook(self, obj, hook, st, *args):
+        """operations on objects of an axiomatised library class (Registry.object_models)"""
+        if isinstance(obj, VRef):
+            m = self.reg.object_models.get(obj.cls)
+            fn = getattr(m, hook, None) if m is not None else None
+            if fn is not None:
+                if not self.spec_mode:
+                    self.oblige(st, "noexc", obj.ref != 0, "None.%s" % hook)
+                return fn(self, st, obj, *args)
+        return NotImplemented
 
     def expr_Tuple(self, node, st):
         return VTuple([self.eval(e, st) for e in node.elts])
@@ -1382,6 +1478,8 @@ class Engine:
         if isinstance(a, VTuple) or isinstance(b, VTuple) or isinstance(a, VList) or isinstance(b, VList):
             lst, other = (a, b) if isinstance(a, VList) else (b, a)
             ch = self.char_of(lst) if isinstance(lst, VList) else None
+            if isinstance(lst, VList) and getattr(lst, "pystr", None) is not None and getattr(other, "interned", False):
+                return to_z3(other) == self.key_of(lst)      # a string held by a library object (modelled by its interned id) vs. a literal
             if ch is not None and is_z3int(other):
                 return to_z3(other) == ch      # a character obtained by iterating a string vs. a one-character literal
             return z3.BoolVal(False) if (is_numlike(a) or is_numlike(b)) else self._uns("equality %r %r" % (a, b))
@@ -1404,6 +1502,9 @@ class Engine:
 
     def contains(self, container, x, st):
         self.need_value(st, container)
+        r = self.model_hook(container, "contains", st, x)
+        if r is not NotImplemented:
+            return r
         if isinstance(container, VDict):
             return container.dom[to_z3(x, container.key)]
         if isinstance(container, VSet):
@@ -1426,6 +1527,11 @@ class Engine:
 
     def getitem(self, base, key, st):
         self.need_value(st, base)
+        r = self.model_hook(base, "getitem", st, key)
+        if r is not NotImplemented:
+            return r
+        if isinstance(base, VModel) and hasattr(base, "sym_getitem"):
+            return base.sym_getitem(self, st, key)
         if isinstance(base, VList):
             k = to_z3(key)
             if self.spec_mode:
